@@ -214,6 +214,10 @@ type taskCtx struct {
 	targetLeft  int
 	noPair      bool
 	forceTarget string // set by the scheduler while the task is parked
+	// The task's wall clock is simulated: it advances by rate nanoseconds per scheduling
+	// point passed; the rate is drawn anew for every slice (from "this task has a core to
+	// itself" to "this task is starved": seconds pass between two statements).
+	vclock, rate int64
 }
 
 // profileShared finds the store sites that write memory which outlives one execution: every
@@ -533,6 +537,7 @@ func Run(t *testing.T, cfg harness.Config, idx int, tp *tape.Tape) (res harness.
 		// nextSlice decides, in the goroutine that was just released, how far it runs now.
 		nextSlice := func(t *taskCtx) {
 			t.target, t.noPair = "", false
+			t.rate = []int64{50, 200, 2000, 50000, 2000000}[tp.Weighted([]int{6, 4, 3, 2, 1}, "stmt.clockrate")]
 			if t.forceTarget != "" {
 				// partner of a pair: run until the site where the other task stopped
 				t.target, t.targetLeft, t.noPair, t.forceTarget = t.forceTarget, 1+tp.Draw(2, "pair.occurrence"), true, ""
@@ -563,6 +568,9 @@ func Run(t *testing.T, cfg harness.Config, idx int, tp *tape.Tape) (res harness.
 					return
 				}
 				stmtPoints.Add(1)
+				if t := cur.Load(); t != nil && t.gid == runtime.VerifGID() {
+					t.vclock += t.rate
+				}
 				store := point[0] == 'w'
 				if store && !siteSeen[point] {
 					siteSeen[point] = true
@@ -610,11 +618,20 @@ func Run(t *testing.T, cfg harness.Config, idx int, tp *tape.Tape) (res harness.
 				t.park("stmt")
 			}
 			defer func() { verifhook.YieldFn = nil }()
+			// time.Now of a task's own goroutine is the task's simulated clock
+			time.VerifNow = func() (int64, bool) {
+				t := cur.Load()
+				if t == nil || t.gid != runtime.VerifGID() {
+					return 0, false
+				}
+				return 1_700_000_000_000_000_000 + t.vclock, true
+			}
+			defer func() { time.VerifNow = nil }()
 		}
 		for i, e := range execs {
 			i, e := i, e
 			started++
-			t := &taskCtx{idx: i, spec: e.spec, budget: 1 << 60}
+			t := &taskCtx{idx: i, spec: e.spec, budget: 1 << 60, rate: 50}
 			tasks[i] = t
 			go func() {
 				defer sim.TaskDone()
